@@ -254,14 +254,16 @@ pub fn oracle(case: &Case, res: &RunResult) -> Outcome {
         viol!(sig, "the bulk transfer did not complete: {} of {} bytes read by the receiver within {} virtual ms (path MTU {:?}, link MTUs {}/{}, EMSGSIZE above {:?})", c.ep[1].read, total, sc.deadline_ms, sc.net.path_mtu, s0.link_mtu, sc.socks[1].link_mtu, s0.emsgsize_above);
     }
     let range = (s0.max_payload() - s0.min_payload() + 1) as f64;
-    let bound = 2 * (range.log2().ceil() as usize) + 3;
+    // "a logarithmic number of probes": the base of the search is not part of the property (a search that keeps 3/4 of
+    // the interval after a failure needs 2.41 log2(range)); any linear or repeating search exceeds this by far
+    let bound = 3 * (range.log2().ceil() as usize) + 3;
     if case.trickle { labels.insert("trickle_writer"); }
     if !case.asymmetric && !case.trickle {
         if steady[0] != target && total as usize > 80 * s0.max_payload() {
             viol!("not-converged", "after {} bytes the steady segment size of the sender is {} but the largest payload that fits the path is {} (path MTU {:?}, link MTU {}, EMSGSIZE above {:?}, probes sent {})", total, steady[0], target, sc.net.path_mtu.0, s0.link_mtu, s0.emsgsize_above, probes_total[0]);
         }
         if probes_total[0] > bound {
-            viol!("too-many-probes", "{} probes were sent, more than 2*ceil(log2({} - {} + 1)) + 3 = {}", probes_total[0], s0.max_payload(), s0.min_payload(), bound);
+            viol!("too-many-probes", "{} probes were sent, more than 3*ceil(log2({} - {} + 1)) + 3 = {}", probes_total[0], s0.max_payload(), s0.min_payload(), bound);
         }
         if steady[0] == target { labels.insert("converged_exact"); }
     }
@@ -293,7 +295,7 @@ impl CheckDef for E2e {
 }
 
 pub fn run(ctx: &mut Ctx) {
-    ctx.rule("E2E: link MTU over the whole range of the option per side (58..65535, one case in five above 9000), true path MTU between the protocol minimum and the smaller link MTU (symmetric; 15 % asymmetric), IPv4/IPv6, silent blackhole or EMSGSIZE on the local link, mtu_probe_max_retransmissions 0..3, fair loss of non-probe datagrams in half of the cases, bulk transfer of 120/400 maximum-size segments plus optional reverse traffic. Oracle: every emitted datagram fits the emitter's link MTU (whatever the peer sends); first transmissions above the proven size (protocol minimum, own acked sizes, received sizes clamped to the link) are probes: one outstanding at a time and the newest segment; C01 integrity; the steady segment size at the end equals the largest payload that fits and the number of probes is <= 2*ceil(log2(range)) + 3. non-trivial = fitting size strictly between minimum and link size, >= 2 probes, >= 1 probe stopped by the path/link; distinct by (target, link MTU, probes, family, drops)");
+    ctx.rule("E2E: link MTU over the whole range of the option per side (58..65535, one case in five above 9000), true path MTU between the protocol minimum and the smaller link MTU (symmetric; 15 % asymmetric), IPv4/IPv6, silent blackhole or EMSGSIZE on the local link, mtu_probe_max_retransmissions 0..3, fair loss of non-probe datagrams in half of the cases, bulk transfer of 120/400 maximum-size segments plus optional reverse traffic. Oracle: every emitted datagram fits the emitter's link MTU (whatever the peer sends); first transmissions above the proven size (protocol minimum, own acked sizes, received sizes clamped to the link) are probes: one outstanding at a time and the newest segment; C01 integrity; the steady segment size at the end equals the largest payload that fits and the number of probes is <= 3*ceil(log2(range)) + 3. non-trivial = fitting size strictly between minimum and link size, >= 2 probes, >= 1 probe stopped by the path/link; distinct by (target, link MTU, probes, family, drops)");
     ctx.assume("probes themselves are exempt from the random fault plan (the property speaks of loss of non-probe packets)");
     ctx.replay_corpus::<E2e>();
     ctx.run_generated::<E2e>(ctx.tier.pick(12_000, 400_000));
